@@ -251,6 +251,15 @@ pub fn fam_bounds(o: &mut Rep, seed: u64) {
         kit.states.push(SO3State::new(1.0e-12, 0.0, -1.0e-12, 0.0));
         bounds_ops(o, seed, &kit, &same_so3, true);
     }
+    // every cone the constructor hands out accepts its own centre, and enforcing the centre leaves an accepted state
+    for &r in &[f64::NAN, 0.0, 1.0e-12, 0.5, PI, 10.0, f64::INFINITY] {
+        if let Ok(sp) = SO3StateSpace::new(Some((SO3State::identity(), r))) {
+            let mut c = SO3State::identity();
+            if !sp.satisfies_bounds(&c) { o.report("bounds", seed, format!("C11 SO3 cone constructed with radius {:?}: the centre itself does not satisfy the bounds", r)); }
+            sp.enforce_bounds(&mut c);
+            if !sp.satisfies_bounds(&c) { o.report("bounds", seed, format!("C11 SO3 cone constructed with radius {:?}: the enforced centre does not satisfy the bounds", r)); }
+        }
+    }
     compound_bounds(o, seed);
 }
 
@@ -335,6 +344,19 @@ pub fn fam_ctor(o: &mut Rep, seed: u64) {
         }
     } } } }
     if RealVectorStateSpace::new(0, None).is_ok() { o.report("ctor", seed, "C12 RealVectorStateSpace::new(0, None) accepted".into()); }
+    for nb in 0usize..7 {
+        let b: Vec<(f64, f64)> = (0..nb).map(|i| (-1.0 - i as f64, 1.0 + i as f64)).collect();
+        let (r2, r3) = (SE2StateSpace::new(1.0, Some(b.clone())), SE3StateSpace::new(1.0, Some(b.clone())));
+        if r2.is_ok() != (nb == 3) { o.report("ctor", seed, format!("C12 SE2StateSpace::new(1.0, {} bounds) returned {}", nb, if r2.is_ok() { "a space" } else { "an error" })); }
+        if r3.is_ok() != (nb == 3) { o.report("ctor", seed, format!("C12 SE3StateSpace::new(1.0, {} bounds) returned {}", nb, if r3.is_ok() { "a space" } else { "an error" })); }
+    }
+    for bad in [(1.0, -1.0), (f64::NAN, 1.0), (2.0, 2.0)] {
+        for pos in 0..3usize {
+            let mut b = vec![(-1.0, 1.0), (-1.0, 1.0), (-1.0, 1.0)]; b[pos] = bad;
+            if SE3StateSpace::new(1.0, Some(b.clone())).is_ok() { o.report("ctor", seed, format!("C12 SE3StateSpace::new accepted the ill-formed bounds {:?}", b)); }
+            if pos < 2 && SE2StateSpace::new(1.0, Some(b.clone())).is_ok() { o.report("ctor", seed, format!("C12 SE2StateSpace::new accepted the ill-formed translation bounds {:?}", b)); }
+        }
+    }
     for &r in &[f64::NAN, -1.0, -1.0e-300, 0.0, 1.0, PI, 10.0, f64::INFINITY] {
         match SO3StateSpace::new(Some((SO3State::identity(), r))) {
             Ok(sp) => { if !(sp.bounds.1 >= 0.0 && sp.bounds.1 <= PI) { o.report("ctor", seed, format!("C12 SO3StateSpace::new(radius {:?}) stored radius {:?}", r, sp.bounds.1)); } }
